@@ -84,6 +84,21 @@ theorem C04_drop_step (s s' : State) (id : Nat) (hI : Inv s) (hN : NoDangling s)
     (h : runCmd s (.drop id) = .ok s') : Inv s' ∧ NoDangling s' :=
   runCmd_keeps hI hN h
 
+/-- Garbage collection of implicit types (the conditional drop `DeleteObject(if_exists,
+    if_unused)`): it never collects an object that another present object still refers
+    to — the command is then a no-op … -/
+theorem C04_gc_keeps_used (s : State) (id j : Nat) (c : Cls) (d : List Val) (f : Nat) (hI : Inv s)
+    (hj : j ≠ id) (hrec : Rec s j c d) (hf : f ∈ c.refIdxs) (ht : id ∈ refsAt c f d) :
+    runCmd s (.dropUnused id) = .ok s :=
+  dropUnused_keeps_used hI hj hrec hf ht
+
+/-- … and when it does collect, the object is reachable through no index and nothing
+    dangles (`C04_nodangling` covers histories containing it as well). -/
+theorem C04_gc_collects (s s' : State) (id : Nat) (hI : Inv s) (hN : NoDangling s)
+    (h : runCmd s (.dropUnused id) = .ok s') :
+    (s' = s ∨ Unreachable s' id) ∧ Inv s' ∧ NoDangling s' :=
+  ⟨dropUnused_unreachable hI h, dropUnused_keeps hI hN h⟩
+
 /-- Frozen versions: the schema values seen along a history are not changed by
     later operations (trivial for a persistent value in Lean; the harness checks the
     real `immutables.Map`-based object by re-fingerprinting every earlier version). -/
@@ -123,6 +138,11 @@ example : (applyCmd (runCmds exCmds State.empty) (.drop 1)).2 = some .schemaErro
 
 /-- … and succeeds, taking the owned child with it, once the function is gone -/
 example : ((runCmds (exCmds ++ [.drop 4, .drop 1]) State.empty).idToData.map (·.1)) = [0] := by decide
+
+/-- the conditional drop: child 2 is still used by function 4 (skipped), function 4 is
+    used by nobody (collected) -/
+example : (runCmds (exCmds ++ [.dropUnused 2]) State.empty).idToData.length = 4
+    ∧ (runCmds (exCmds ++ [.dropUnused 4]) State.empty).idToData.length = 3 := by decide
 
 /-- duplicate name, unknown module, dangling create: rejected -/
 example : (applyCmd (runCmds exCmds State.empty) (.create 5 exT [.name (.qual 3 0), .nil, .nil])).2
